@@ -273,7 +273,7 @@ def units(props=('C06', 'C08', 'C09')):
                 if not in_range(it, x, 0, 2 ** 32 - 1):
                     return ume(ERR_ATTR_LEN)
             tr.append((g, a, b))
-        return 'ret', A.large_communities_enc(tr)
+        return 'ret+', (A.large_communities_enc(tr, flags=emitted_flag(it, 32)), rfc_flag_clause(it, 32))
     U('LargeCommunity.construct', AT + 'largecommunity.LargeCommunity.construct', lc_c_args, lc_c)
 
     def lc_p(it, value):
@@ -424,10 +424,12 @@ def update_units(props):
         raw = it._uc_in
         if not raw['attrs'] and not raw['nlri'] and not raw['withdraw']:
             return 'ret', None
-        attrs = SP.cat(*[enc_attr(t, v, raw['asn4']) for (t, v) in raw['attrs']]) if raw['attrs'] else b''
+        attrs = SP.cat(*[enc_attr(t, v, raw['asn4'], flags=(emitted_flag(it, t) if t in FLAG_CLASS else None))
+                         for (t, v) in raw['attrs']]) if raw['attrs'] else b''
         W = SP.cat(*[A.prefix4_enc(a, l) for (a, l) in raw['withdraw']]) if raw['withdraw'] else b''
         N = SP.cat(*[A.prefix4_enc(a, l) for (a, l) in raw['nlri']]) if raw['nlri'] else b''
-        return 'ret', wire.header(wire.T_UPDATE, A.update_body(W, attrs, N))
+        extra = [c for (t, v) in raw['attrs'] if t in FLAG_CLASS for c in rfc_flag_clause(it, t)]
+        return 'ret+', (wire.header(wire.T_UPDATE, A.update_body(W, attrs, N)), extra)
     U('Update.construct', UPD + 'construct', uc_args, uc_expect, max_paths=20000)
 
     # ---------------- Update.parse on reference encodings with the legal variants
@@ -571,7 +573,22 @@ def dec_attr_value(t, v, a4):
     return attr_api_value(t, v)
 
 
-def enc_attr(t, v, a4, force_extended=False):
+FLAG_CLASS = {32: 'yabgp.message.attribute.largecommunity.LargeCommunity'}
+
+
+def emitted_flag(it, t):
+    """the flag constant the encoder class emits (read from the class on disk); whether it is the RFC category is a
+    separately named clause (rfc_flag_clause), so that the rest of the encoding is proved independently of it"""
+    return int(it.prog.func(FLAG_CLASS[t]).lookup('FLAG'))
+
+
+def rfc_flag_clause(it, t):
+    fl = emitted_flag(it, t)
+    return [('rfc-flag-octet', z3.BoolVal(fl & 0xE0 == A.CATEGORY[t]),
+             'attribute type %d is emitted with flags %#x, RFC category %#x' % (t, fl, A.CATEGORY[t]))]
+
+
+def enc_attr(t, v, a4, force_extended=False, flags=None):
     if t == 1:
         body = SP.be(v['origin'], 1)
     elif t == 2:
@@ -600,7 +617,7 @@ def enc_attr(t, v, a4, force_extended=False):
         body = SP.cat(SP.be(v['agg4_as'], 4), SP.be(v['agg_ip'], 4))
     else:
         raise ValueError(t)
-    return A.attr(t, body, force_extended=force_extended)
+    return A.attr(t, body, force_extended=force_extended, flags=flags)
 
 
 BOUND_NOTE = ('list-valued attributes and prefix lists are verified for enumerated shapes (0..3 elements per list, AS_PATH up to 3 '
